@@ -516,7 +516,7 @@ def run_rnd(case, ctx):
         best, nbest, _ = enum_best(p, q, counts)
         if nseq <= 3000:
             vb, vn, _ = viterbi_exact(p, q, counts)
-            if vb != best or vn != nbest:
+            if vb != best or (best > 0 and vn != nbest):
                 raise M.HarnessError("oracle self-check failed: enumeration %r/%d vs exact Viterbi %r/%d"
                                      % (best, nbest, vb, vn))
             ctx.count("oracle_selfcheck")
